@@ -76,6 +76,7 @@ struct St {
     pixels: u64,
     writes: u64,
     empty_frames: u64,
+    long_lives: u64,
     patterns: HashSet<u64>,
     histories: u64,
     sample: Vec<J>,
@@ -254,6 +255,39 @@ fn history_case(ctx: &Ctx, rng: &mut Rng, is128: bool, st: &mut St, case: u64) {
     let fail = |ctx: &Ctx, key: &str, what: String, hist: &Vec<String>| {
         ctx.violation(key, &what, jobj! {"case"=>case,"is128"=>is128,"history"=>J::Arr(hist.iter().map(|s| J::from(s.as_str())).collect())});
     };
+    // now and then the machine has a long life behind it: tens of thousands of border writes (a
+    // minute of tape loading stripes) before the judged history starts
+    if rng.chance(1, 10) {
+        // several bursts of writes with idle frames in between (each idle frame is judged), until
+        // more than 70000 writes have been made in this emulator's life
+        let mut total = 0u64;
+        let mut v = 0u8;
+        while total < 70_000 {
+            let n = 3_000 + rng.below(30_000);
+            for i in 0..n {
+                v = ((i % 7) as u8 + 1) & 7 | (rng.u8() & 0x18);
+                m.out(0x00FE | ((i as u16 & 0xFF) << 8), v);
+            }
+            total += n;
+            st.writes += n;
+            hist.push(format!("{} OUTs to the ULA cycling through the colours, the last one {:02x} ({} so far)", n, v, total));
+            current = Some(v & 7);
+            last = Some((0x00FE, v));
+            m.run_frames(2);
+            hist.push("2 idle frames".into());
+            st.frames += 1;
+            st.empty_frames += 1;
+            let px = m.emu.border_buffer().px.clone();
+            match judge(&g, &px, v & 7, &[]) {
+                Ok(n) => st.pixels += n,
+                Err(e) => {
+                    fail(ctx, &format!("border-history:{}:idle-frame", if is128 { "128k" } else { "48k" }), format!("idle frame after {} border writes does not show colour {}: {}", total, v & 7, e), &hist);
+                    return;
+                }
+            }
+        }
+        st.long_lives += 1;
+    }
     for _ in 0..8 + rng.below(12) {
         match rng.below(6) {
             0 | 1 | 2 => {
@@ -328,7 +362,7 @@ pub fn run(ctx: &Ctx) -> Evidence {
     let n = ctx.scale(6_400, 200_000) as usize;
     let shards = 64usize;
     let res = par_map(ctx.jobs(), shards, |sh| {
-        let mut st = St { frames: 0, pixels: 0, writes: 0, empty_frames: 0, patterns: HashSet::new(), histories: 0, sample: vec![] };
+        let mut st = St { frames: 0, pixels: 0, writes: 0, empty_frames: 0, long_lives: 0, patterns: HashSet::new(), histories: 0, sample: vec![] };
         for i in 0..(n / shards).max(1) {
             let case = (sh * (n / shards).max(1) + i) as u64;
             let mut rng = Rng::fork(ctx.seed ^ 0xC09, case);
@@ -348,6 +382,7 @@ pub fn run(ctx: &Ctx) -> Evidence {
         ev.add_num("border_pixels_judged", r.pixels);
         ev.add_num("port_writes", r.writes);
         ev.add_num("frames_without_write", r.empty_frames);
+        ev.add_num("histories_after_65000+_border_writes", r.long_lives);
         ev.add_num("load_write_histories", r.histories);
         pats.extend(r.patterns);
         for s in r.sample {
